@@ -169,16 +169,22 @@ Dom(c) == {v \in Tuples(EnumSizes(c)) : InDom(c, v)}
 EncReg(x, w, N) == SumSeq([i \in 1..Len(w) |-> Bit(x, Len(w), i) * 2^(N - 1 - w[i])])
 Enc(c, v) == SumSeq([r \in 1..Len(v) |-> EncReg(v[r], c.lay[r], c.N)])
 
+\* the documented function tabulated over the documented domain (evaluate once: wrap in TLCEval)
+FTable(c) == [v \in Dom(c) |-> F(c, v)]
 \* the table of the configuration: basis-state index in -> basis-state index out, over the documented domain
-Table(c) == {<<Enc(c, v), Enc(c, F(c, v))>> : v \in Dom(c)}
+TableT(c, ft) == {<<Enc(c, v), Enc(c, ft[v])>> : v \in DOMAIN ft}
+Table(c) == TableT(c, FTable(c))
 
 \* ------------------------------------------------------------------ properties of the documented functions themselves
 \* outputs fit their registers
-Fits(c) == \A v \in Dom(c) : \A r \in 1..Len(v) : F(c, v)[r] >= 0 /\ F(c, v)[r] < 2^Len(c.lay[r])
+FitsT(c, ft) == \A v \in DOMAIN ft : \A r \in 1..Len(v) : ft[v][r] >= 0 /\ ft[v][r] < 2^Len(c.lay[r])
 \* a unitary can only implement an injective map
-Injective(c) == \A v1, v2 \in Dom(c) : F(c, v1) = F(c, v2) => v1 = v2
+InjectiveT(ft) == Cardinality({ft[v] : v \in DOMAIN ft}) = Cardinality(DOMAIN ft)
 \* work register restored
-WorkRestored(c) == c.wk > 0 => \A v \in Dom(c) : F(c, v)[c.wk] = 0
+WorkRestoredT(c, ft) == c.wk > 0 => \A v \in DOMAIN ft : ft[v][c.wk] = 0
 \* Enc is faithful (distinct register values give distinct basis states)
-EncInjective(c) == Cardinality({t[1] : t \in Table(c)}) = Cardinality(Dom(c))
+EncInjectiveT(c, ft) == Cardinality({Enc(c, v) : v \in DOMAIN ft}) = Cardinality(DOMAIN ft)
+Fits(c) == FitsT(c, FTable(c))
+Injective(c) == InjectiveT(FTable(c))
+WorkRestored(c) == WorkRestoredT(c, FTable(c))
 =============================================================================
